@@ -129,18 +129,22 @@ Proof. exact print_in_grammar. Qed.
 Print Assumptions C13_print_in_grammar.
 
 (* jbl_as_json (printer of the binary form, modelled at the level of the text it writes): on trees without NUL bytes
-   and with the one-space indentation it writes what jbn_as_json writes, hence the same round trip.
-   _partial: doubles excluded; the binn encoding between jbl_from_node and jbl_as_json is not modelled. *)
-Theorem C13_jbl_print_parse_partial : forall fo pf ora v t, wf v -> nulfree v -> indent pf = 1 ->
+   it writes what jbn_as_json writes for EVERY flag set (since d42c39c it honours JBL_PRINT_PRETTY_INDENT2 / _INDENT4; the
+   hypothesis `indent pf = 1` of earlier rounds is gone), hence the same round trip.
+   _partial: doubles excluded.  The binn encoding between jbl_from_node and jbl_as_json is modelled and tied to this
+   value-level printer by C14 (C14_print_binn_value, JSON/BinnAcc.v). *)
+Theorem C13_jbl_print_parse_partial : forall fo pf ora v t, wf v -> nulfree v ->
   depth v <= JBL_MAX_NESTING_LEVEL -> jbl_as_json fo pf v = Ok t -> from_json ora t = Ok (Some v).
 Proof. exact jbl_print_parse. Qed.
 Print Assumptions C13_jbl_print_parse_partial.
 
 Example C13_jbl_example :
-  indent (Z.lor JBL_PRINT_PRETTY JBL_PRINT_CODEPOINTS) = 1 /\
+  indent JBL_PRINT_PRETTY_INDENT2 = 2 /\
   jbl_as_json (fun _ => []) JBL_PRINT_PRETTY (JObj [([97], JArr [JI64 1; JStr [98]])]) =
-  Ok [123; 10; 32; 34; 97; 34; 58; 32; 91; 10; 32; 32; 49; 44; 10; 32; 32; 34; 98; 34; 10; 32; 93; 10; 125].
-Proof. split; vm_compute; reflexivity. Qed.
+  Ok [123; 10; 32; 34; 97; 34; 58; 32; 91; 10; 32; 32; 49; 44; 10; 32; 32; 34; 98; 34; 10; 32; 93; 10; 125] /\
+  jbl_as_json (fun _ => []) JBL_PRINT_PRETTY_INDENT2 (JArr [JArr [JI64 1]]) =
+  Ok [91; 10; 32; 32; 91; 10; 32; 32; 32; 32; 49; 10; 32; 32; 93; 10; 93].
+Proof. repeat split; vm_compute; reflexivity. Qed.
 
 (* (4) with JBL_PRINT_CODEPOINTS the text is pure ASCII *)
 Theorem C13_print_ascii : forall fo pf v lvl t, wf v -> has pf JBL_PRINT_CODEPOINTS = true ->
